@@ -102,9 +102,15 @@ type VerifSnap struct {
 }
 
 func verifCountSubs(n *particle) (subs, inline int) {
-	subs += n.subscriptions.Len()
-	subs += n.shared.Len()
-	inline += n.inlineSubscriptions.Len()
+	if n.subscriptions != nil {
+		subs += n.subscriptions.Len()
+	}
+	if n.shared != nil {
+		subs += n.shared.Len()
+	}
+	if n.inlineSubscriptions != nil {
+		inline += n.inlineSubscriptions.Len()
+	}
 	for _, c := range n.particles.getAll() {
 		a, b := verifCountSubs(c)
 		subs += a
